@@ -375,6 +375,33 @@ func genWire(r *rng, o *out, do func(string) string) {
 			bf = append(bf, kv{strconv.Itoa(t), randVal(r)})
 		}
 	}
+	if n := len(hf); app != "" && n >= 2 && hf[n-2].tag == "212" && r.chance(1, 2) {
+		// XMLData behind a repeating group of the message (the group reader hands the field that ended the group back to
+		// the message reader: the length has to be honoured there as well)
+		if mm, ok := dict(app).Messages[msgType]; ok {
+			var groups []int
+			for _, t := range dictTags {
+				if fd := mm.Fields[t]; fd != nil && len(fd.Fields) > 0 {
+					groups = append(groups, t)
+				}
+			}
+			if len(groups) > 0 {
+				gt := groups[r.intn(len(groups))]
+				fd := mm.Fields[gt]
+				cnt := 1 + r.intn(2)
+				bf = append(bf, kv{strconv.Itoa(gt), []byte(strconv.Itoa(cnt))})
+				for e := 0; e < cnt; e++ {
+					bf = append(bf, kv{strconv.Itoa(fd.Fields[0].Tag()), randVal(r)})
+					if len(fd.Fields) > 1 && len(fd.Fields[1].Fields) == 0 && r.chance(1, 2) {
+						bf = append(bf, kv{strconv.Itoa(fd.Fields[1].Tag()), randVal(r)})
+					}
+				}
+				bf = append(bf, hf[n-2], hf[n-1])
+				hf = hf[:n-2]
+				o.kind("wire.xml-behind-group")
+			}
+		}
+	}
 	if r.chance(1, 4) {
 		tf = append(tf, kv{r.pick([]string{"93", "89"}), randVal(r)})
 	}
